@@ -397,6 +397,25 @@ impl<'tcx> Cx<'tcx> {
         o.set("name", J::opt_s(tcx.opt_item_name(def).map(|s| s.to_string())));
         let kind = tcx.def_kind(def);
         o.set("def_kind", J::s(format!("{:?}", kind)));
+        // names of the type parameters in the order of the instance's generic arguments (parents first)
+        {
+            let mut names: Vec<J> = vec![];
+            let mut chain = vec![];
+            let mut cur = Some(def);
+            while let Some(d) = cur {
+                let g = tcx.generics_of(d);
+                chain.push(g);
+                cur = g.parent;
+            }
+            for g in chain.iter().rev() {
+                for p in g.own_params.iter() {
+                    if matches!(p.kind, ty::GenericParamDefKind::Type { .. } | ty::GenericParamDefKind::Const { .. }) {
+                        names.push(J::s(p.name.to_string()));
+                    }
+                }
+            }
+            o.set("gparams", J::Arr(names));
+        }
         let is_closure = tcx.is_closure_like(def);
         o.set("closure", J::Bool(is_closure));
         let root = tcx.typeck_root_def_id(def);
